@@ -24,10 +24,14 @@ TRUSTED_BASE = [
 ASSUMPTIONS = ['no panic inside the evaluation (C06): unwinding skips the restore -- theorem C13_preview_ctx_unchanged_except_known; '
                'the refuted full statement is reproduced on the real code whenever a panicking input exists']
 
+# the preview's own effects on a copy must not leak: see 'lazy-closures' and the behavioural probes in verify()
 CONTEXTS = [
     # (name, flags, setup)
     ('vars+handlers', F_RNG | F_RATES, ['a = 5', 'f = (x: x + a)', 's = "txt"', 'r = 1 GBP to JPY', 'b = roll d6', '7 + 1']),
     ('all-settings', F_RNG | F_RATES | F_COULOMB | F_TERMINAL | F_COMMA | F_CUSTOM, ['a = 1,5', 'x = 2 blorps', 'g = (y: y a)']),
+    # partially applied closures whose captured arguments are still unevaluated (lazy) and mention globals
+    ('lazy-closures', F_RNG | F_RATES, ['a = 1', 'c = 10', 'f = (x: y: x + y) a', 'g = (x: y: z: x * y + z) (a + c) a',
+                                        'h = (p: q: p q) (x: x + a)', 'k = (x: y: x) (roll d6)', 'm = (x: y: x + y) (f c)']),
     ('bare', 0, []),
     ('rng-only', F_RNG, ['a = 2']),
 ]
@@ -43,6 +47,14 @@ def build_inputs(c):
                     (CORPUS_PANICKY, 'panicky')):
         for s in lst:
             kinds.setdefault(s, kd)
+    # previews that reassign the globals stored closures read lazily, then force those closures
+    alias = []
+    for g in ('a', 'c'):
+        for use in ('f 1', 'g 1 2', 'h 3', 'k 1', 'm 2', 'f', 'g 1', 'f 1 + g 1 2 + h 3 + m 2'):
+            alias.append('%s = 100; %s' % (g, use))
+    alias += ['f 1', 'g 1 2', 'h 3', 'k 1', 'm 2', 'a = 100; c = 200; m 2; g 1 2', 'f = (x: y: 0) 5; f 1', 'a = a + 1; f a']
+    for s_ in alias:
+        base.append(s_); kinds.setdefault(s_, 'alias')
     ngen = 120 if c.tier == 'quick' else 800
     for _ in range(ngen):
         s = gen_expr(r)
@@ -162,6 +174,12 @@ def check(c):
             c.violation('preview-changed-settings', dict(rep, kind='impl-vs-spec', before=repr(pk.settings_before), after=repr(pk.settings_after))); return
         if pk.probes_before != pk.probes_after:
             c.violation('preview-changed-probe-results', dict(rep, kind='impl-vs-spec', before=repr(pk.probes_before), after=repr(pk.probes_after))); return
+        # --- behaviour: every stored variable evaluated / applied to fixed arguments gives what it gives on a twin
+        # context that never saw the preview (state shared between the preview's clone and the real context would show here)
+        if isinstance(pk.behaviour, list) and len(pk.behaviour) == 2 and isinstance(pk.behaviour[1], list):
+            if pk.behaviour[1]:
+                d = [(txt(x[0]), txt(x[1]), txt(x[2])) if len(x) == 3 and isinstance(x[0], list) else repr(x) for x in pk.behaviour[1][:6]]
+                c.violation('preview-changed-behaviour', dict(rep, kind='impl-vs-spec', probe_previewed_twin=d)); return
         # --- no random number drawn, no rate requested
         if pk.rng_calls != 0 or pk.rate_calls != 0:
             c.violation('preview-called-host', dict(rep, kind='impl-vs-spec', rng_calls=pk.rng_calls, rate_calls=pk.rate_calls)); return
